@@ -265,8 +265,8 @@ class FleetStore(Store):
 
             # 6) Compute new insertion index
             # "FIFO":
-                # one slot before the remaining reserved block
-            insert_idx = len(self.ready_items) - len(self.reserved_events) - 1
+                # right after the remaining reserved block (first among the unreserved items)
+            insert_idx = len(self.reserved_events)
             
 
             # 7) Re‑insert it
